@@ -18,7 +18,7 @@ def gscon_records(path):
             elif cur is not None and e == "Lacon":
                 a = json.loads(ln)["a"]
                 cur["n"] = a[0]
-                cur["seq"].append([a[1], a[2]])
+                cur["seq"].append([a[1], a[2], a[3] if len(a) > 3 else -1])
                 cur["solves"].append([])
             elif cur is not None and e == "Trsv" and cur["solves"]:
                 cur["solves"][-1].append(json.loads(ln)["a"])
@@ -48,5 +48,5 @@ def rfs_records(path, cplx=False):
                 cur["ev"].append([2, json.loads(ln)["a"][0], 0])
             elif cur is not None and e == "Lacon":
                 a = json.loads(ln)["a"]
-                cur["ev"].append([3, a[1], a[2]])
+                cur["ev"].append([3, a[1], a[2], a[3] if len(a) > 3 else -1])
     return recs
